@@ -698,6 +698,134 @@ func (m *machine) call(x *gen.Expr, e *env) interface{} {
 			fail("substring out of range")
 		}
 		return string(r[a:b])
+	case "replace":
+		need(3)
+		s, old, nw := str(0), str(1), str(2)
+		if old == "" {
+			outside("replace of the empty string is not pinned by the reference")
+		}
+		// every occurrence, scanning left to right, non-overlapping
+		var sb strings.Builder
+		for {
+			i := strings.Index(s, old)
+			if i < 0 {
+				sb.WriteString(s)
+				break
+			}
+			sb.WriteString(s[:i])
+			sb.WriteString(nw)
+			s = s[i+len(old):]
+		}
+		return sb.String()
+	case "split":
+		need(2)
+		s, d := str(0), str(1)
+		if d == "" || s == "" {
+			outside("split of / by the empty string is not pinned by the reference")
+		}
+		out := []interface{}{}
+		for {
+			i := strings.Index(s, d)
+			if i < 0 {
+				out = append(out, s)
+				break
+			}
+			out = append(out, s[:i])
+			s = s[i+len(d):]
+		}
+		return out
+	case "join":
+		need(2)
+		arr, ok := args[0].([]interface{})
+		if !ok {
+			fail("join of a non-array")
+		}
+		d := str(1)
+		var sb strings.Builder
+		for i, el := range arr {
+			if i > 0 {
+				sb.WriteString(d)
+			}
+			switch v := el.(type) {
+			case string:
+				sb.WriteString(v)
+			case int64:
+				sb.WriteString(strconv.FormatInt(v, 10))
+			default:
+				outside("join of elements other than strings and ints is not pinned by the reference")
+			}
+		}
+		return sb.String()
+	case "parseInt":
+		need(1)
+		s := str(0)
+		neg, digits := false, s
+		if strings.HasPrefix(s, "-") {
+			neg, digits = true, s[1:]
+		}
+		if s != strings.TrimSpace(s) || strings.HasPrefix(s, "+") {
+			outside("parseInt of padded or plus-signed text is not pinned by the reference")
+		}
+		if digits == "" {
+			fail("parseInt: no digits")
+		}
+		var mag uint64
+		for _, c := range digits {
+			if c < '0' || c > '9' {
+				fail("parseInt: not a decimal integer")
+			}
+			dg := uint64(c - '0')
+			if mag > (math.MaxUint64-dg)/10 {
+				fail("parseInt: out of range")
+			}
+			mag = mag*10 + dg
+		}
+		if neg {
+			if mag > 1<<63 {
+				fail("parseInt: out of range")
+			}
+			return -int64(mag-1) - 1
+		}
+		if mag > math.MaxInt64 {
+			fail("parseInt: out of range")
+		}
+		return int64(mag)
+	case "parseFloat":
+		need(1)
+		s := str(0)
+		// pinned: optional minus, digits, optionally a point followed by digits; clear garbage is an error; everything
+		// else (exponents, bare points, NaN/inf, padding) is left to the implementation
+		body := strings.TrimPrefix(s, "-")
+		intPart, frac, hasPoint := body, "", false
+		if i := strings.Index(body, "."); i >= 0 {
+			intPart, frac, hasPoint = body[:i], body[i+1:], true
+		}
+		allDigits := func(t string) bool {
+			for _, c := range t {
+				if c < '0' || c > '9' {
+					return false
+				}
+			}
+			return t != ""
+		}
+		if allDigits(intPart) && (!hasPoint || allDigits(frac)) {
+			f, err := strconv.ParseFloat(s, 64)
+			if err != nil {
+				outside("parseFloat: value out of the reference's range")
+			}
+			return f
+		}
+		letters := false
+		for _, c := range s {
+			if (c >= 'a' && c <= 'z' || c >= 'A' && c <= 'Z') && c != 'e' && c != 'E' {
+				letters = true
+			}
+		}
+		lower := strings.ToLower(s)
+		if s == "" || (letters && !strings.Contains(lower, "nan") && !strings.Contains(lower, "inf")) || strings.Count(s, ".") > 1 || strings.Contains(s, ",") {
+			fail("parseFloat: not a number")
+		}
+		outside("parseFloat of this spelling is not pinned by the reference")
 	case "toString":
 		need(1)
 		switch v := args[0].(type) {
